@@ -753,6 +753,10 @@ class FFBuffer(wiring.Component):
             raise TypeError(f"'port' must be a 'PortLike', not {port!r}")
         self._port = port
         super().__init__(FFBuffer.Signature(direction, len(port)).flip())
+        for domain in (i_domain, o_domain):
+            if domain == "comb":
+                raise ValueError("Domain 'comb' is not a clock domain, and cannot be used for the registers "
+                                 "of a buffer")
         if self.signature.direction is not Direction.Output:
             self._i_domain = i_domain or "sync"
         else:
@@ -966,6 +970,10 @@ class DDRBuffer(wiring.Component):
             raise TypeError(f"'port' must be a 'PortLike', not {port!r}")
         self._port = port
         super().__init__(DDRBuffer.Signature(direction, len(port)).flip())
+        for domain in (i_domain, o_domain):
+            if domain == "comb":
+                raise ValueError("Domain 'comb' is not a clock domain, and cannot be used for the registers "
+                                 "of a buffer")
         if self.signature.direction is not Direction.Output:
             self._i_domain = i_domain or "sync"
         else:
